@@ -867,7 +867,22 @@ pub fn child_cli_ber(casefile: &str) -> ! {
         // stream, whatever the schedule; the worker's random stream is keyed by its task id.
         // So the library, called with the parameters the arguments *mean*, must reproduce the
         // counts the tool wrote (a dummy task takes the place of the progress thread).
-        if let Some(rows) = reference_ber_rows(&argv_for_ref, seeds, &strategy, &clock) {
+        // That argument needs the library's own result to be a function of (arguments, entropy)
+        // alone. It is for the present design; a design that keeps its workers (and their random
+        // streams) across Eb/N0 points and discards frames in flight at the end of a point is
+        // schedule dependent from the second line on without violating anything. The reference
+        // is therefore computed under three different schedules, and a line is compared only
+        // if the three agree on it.
+        let refs: Vec<_> = (0..3u64).filter_map(|variant| reference_ber_rows(&argv_for_ref, seeds, &strategy, &clock, variant)).collect();
+        if refs.len() == 3 {
+            let mut rows = refs[0].clone();
+            for (vi, view) in rows.iter_mut().enumerate() {
+                for (li, line) in view.iter_mut().enumerate() {
+                    if refs.iter().any(|r| r.get(vi).and_then(|v| v.get(li)) != Some(&*line)) {
+                        line.clear();
+                    }
+                }
+            }
             eprintln!("REFSTATS {}", serde_json::to_string(&rows).unwrap());
         }
     }
@@ -882,7 +897,7 @@ pub fn child_cli_ber(casefile: &str) -> ! {
 /// Run BerTestBuilder in-process with the meaning of the arguments; rows of
 /// [frames, bit errs, frame errs, false decodes, BER, FER, avg iter, avg corr] as printed,
 /// first in the default view (outer code if configured) then in the LDPC-only view.
-fn reference_ber_rows(argv: &[String], seeds: [u64; 3], strategy: &str, clock: &str) -> Option<Vec<Vec<Vec<String>>>> {
+fn reference_ber_rows(argv: &[String], seeds: [u64; 3], strategy: &str, clock: &str, variant: u64) -> Option<Vec<Vec<Vec<String>>>> {
     use ldpc_toolbox::decoder::factory::DecoderImplementation;
     use ldpc_toolbox::simulation::factory::{BerTestBuilder, Modulation};
     let h = SparseMatrix::from_alist(&std::fs::read_to_string("code.alist").ok()?).ok()?;
@@ -903,10 +918,14 @@ fn reference_ber_rows(argv: &[String], seeds: [u64; 3], strategy: &str, clock: &
     let max_iter: usize = arg_val(argv, "--max-iter").unwrap_or("100").parse().ok()?;
     let bch: u64 = arg_val(argv, "--bch-max-errors").unwrap_or("0").parse().ok()?;
     let cfg = dstsim::Config {
-        sched_seed: seeds[0] ^ 0x5555,
+        sched_seed: (seeds[0] ^ 0x5555).wrapping_add(variant.wrapping_mul(0x9E37_79B9_7F4A_7C15)),
         clock_seed: seeds[1],
         entropy_seed: seeds[2],
-        strategy: Strategy::parse(strategy).unwrap_or(Strategy::Uniform),
+        strategy: match variant {
+            0 => Strategy::parse(strategy).unwrap_or(Strategy::Uniform),
+            1 => Strategy::Uniform,
+            _ => Strategy::Sticky(900),
+        },
         clock: ClockProfile::parse(clock).unwrap_or(ClockProfile::Coarse),
         num_cpus: 1,
         max_steps: 3_000_000,
@@ -1103,9 +1122,9 @@ fn check_ber_outputs(alist: &str, args: &[String], dir: &Path, out: &ProcOut, st
             }
             if let Some(rr) = &refrows {
                 let view = &rr[usize::from(ldpc_only)];
-                stats.inc("ber line compared with the library run on the same random streams");
                 match view.get(i) {
-                    Some(want) if want[..] == r[1..9] => {}
+                    Some(want) if want.is_empty() => stats.inc("ber line not compared: the library's own result for it depends on the schedule"),
+                    Some(want) if want[..] == r[1..9] => stats.inc("ber line compared with the library run on the same random streams"),
                     other => {
                         return Some(Violation::new(
                             "ber-mapping",
